@@ -4,6 +4,7 @@
 From Coq Require Import List NArith Bool Arith String.
 Import ListNotations.
 Require Import Reader Chunk.
+Require Chunk16.
 
 (* KIND C07_feed_whole : U *)
 (* feeding ANY list of reads (every size, splits inside multi-byte sequences included) non-finally, carrying the undecoded
@@ -34,7 +35,33 @@ Example C07_nonvacuous :
   feed [] [[97; 226]; [40]]%N [] 0 = feed [] [[97]; [226; 40]]%N [] 0.
 Proof. vm_compute. repeat split; reflexivity. Qed.
 
-(* PARTIAL: the UTF-16 analogue, encoding_detection_schedule_free and reader_delivery_independent (line/column equal for
+(* KIND C07_utf16_feed_whole : U *)
+(* the same for UTF-16, little and big endian (le): reads that cut a code unit or a surrogate pair anywhere *)
+Theorem C07_utf16_feed_whole : forall (le : bool) chunks carry acc base,
+  Chunk16.feed le carry chunks acc base =
+  match Chunk16.D le true (carry ++ List.concat chunks)%list 0 [] with
+  | DecOk d _ => Chunk16.FOk (acc ++ d)%list | DecErr st b r => Chunk16.FErr (base + st) b r end.
+Proof. exact Chunk16.feed_whole. Qed.
+Eval vm_compute in "ASSUME:C07_utf16_feed_whole"%string. Print Assumptions C07_utf16_feed_whole.
+(* KIND C07_utf16_chunking_independent : U *)
+Theorem C07_utf16_chunking_independent : forall (le : bool) chunks1 chunks2,
+  List.concat chunks1 = List.concat chunks2 -> Chunk16.feed le [] chunks1 [] 0 = Chunk16.feed le [] chunks2 [] 0.
+Proof. exact Chunk16.utf16_chunking_independent. Qed.
+Eval vm_compute in "ASSUME:C07_utf16_chunking_independent"%string. Print Assumptions C07_utf16_chunking_independent.
+(* KIND C07_utf16_decoder_fuel_irrelevant : U *)
+Theorem C07_utf16_decoder_fuel_irrelevant : forall (le : bool) f fin bs off acc,
+  List.length bs < f -> decode f (Chunk16.E16 le) fin bs off acc = Chunk16.D le fin bs off acc.
+Proof. exact Chunk16.decode_fuel. Qed.
+Eval vm_compute in "ASSUME:C07_utf16_decoder_fuel_irrelevant"%string. Print Assumptions C07_utf16_decoder_fuel_irrelevant.
+(* KIND C07_utf16_nonvacuous : F *)
+(* U+20AC and U+1F600 in UTF-16-LE cut inside a code unit and inside the surrogate pair; a lone low surrogate is an error at the same offset *)
+Example C07_utf16_nonvacuous :
+  Chunk16.feed true [] [[172]; [32; 61]; [216; 0]; [222]]%N [] 0 = Chunk16.FOk [8364; 128512]%N /\
+  Chunk16.feed true [] [[172; 32; 61; 216; 0; 222]]%N [] 0 = Chunk16.FOk [8364; 128512]%N /\
+  Chunk16.feed false [] [[0; 97; 220]; [0]]%N [] 0 = Chunk16.feed false [] [[0]; [97; 220; 0]]%N [] 0.
+Proof. vm_compute. repeat split; reflexivity. Qed.
+
+(* PARTIAL: encoding_detection_schedule_free and reader_delivery_independent (line/column equal for
    all forms) are not proved; they are decided by the reader correspondence (all four input forms, read schedules, read()
    call log) and the direct run over all split positions.  FULL "same error regardless of form" is refuted when a second,
    earlier scanner/parser error exists (eager vs block-wise validation): see known findings. *)
